@@ -1,5 +1,363 @@
-import IndicatorVerif.Model.Registry
-/- C15 — theorems under construction -/
+import IndicatorVerif.Proofs.RangeReal
+import Mathlib.Tactic.Positivity
+import Mathlib.Tactic.GCongr
+/-
+  C15 — ranges and band orderings, proved over the reals on the documented formulas (Spec), for every valid
+  OHLCV series, every position and every period ≥ 1.  Positions whose defining denominator is zero are exempt
+  (explicit hypotheses), as the property says.  "Up to rounding" is the float side, covered by the oracle on the
+  Go outputs; the theorems are exact over ℝ.
+-/
+noncomputable section
 namespace C15
-theorem placeholder_true : True := trivial
+open PS Spec ArithReal
+
+/-- a valid OHLCV series: low ≤ open, close ≤ high, positive prices, non-negative volume -/
+structure Valid (o h l c v : Nat → ℝ) : Prop where
+  low_pos : ∀ i, 0 < l i
+  low_open : ∀ i, l i ≤ o i
+  open_high : ∀ i, o i ≤ h i
+  low_close : ∀ i, l i ≤ c i
+  close_high : ∀ i, c i ≤ h i
+  vol_nonneg : ∀ i, 0 ≤ v i
+
+variable {o h l c v : Nat → ℝ}
+
+theorem Valid.low_high (V : Valid o h l c v) (i : Nat) : l i ≤ h i := le_trans (V.low_close i) (V.close_high i)
+theorem Valid.high_pos (V : Valid o h l c v) (i : Nat) : 0 < h i := lt_of_lt_of_le (V.low_pos i) (V.low_high i)
+theorem Valid.close_pos (V : Valid o h l c v) (i : Nat) : 0 < c i := lt_of_lt_of_le (V.low_pos i) (V.low_close i)
+
+/-! ### ratios of a value inside its range -/
+
+theorem ratio_in_unit {x lo hi : ℝ} (h1 : lo ≤ x) (h2 : x ≤ hi) (h3 : lo < hi) : 0 ≤ (x - lo) / (hi - lo) ∧ (x - lo) / (hi - lo) ≤ 1 := by
+  have hd : 0 < hi - lo := by linarith
+  exact ⟨div_nonneg (by linarith) hd.le, by rw [div_le_one hd]; linarith⟩
+
+/-- **BoP ∈ [-1, 1]** : (close − open) / (high − low) -/
+theorem bop_range (V : Valid o h l c v) (i : Nat) (hd : h i ≠ l i) :
+    -1 ≤ ((input c - input o) / (input h - input l)).val i ∧ ((input c - input o) / (input h - input l)).val i ≤ 1 := by
+  simp only [div_val, sub_val, input_val, div_eq, sub_eq]
+  have hlt : 0 < h i - l i := by have := V.low_high i; rcases lt_or_eq_of_le this with x | x; linarith; exact absurd x.symm hd
+  have a1 := V.low_open i; have a2 := V.open_high i; have a3 := V.low_close i; have a4 := V.close_high i
+  constructor
+  · rw [le_div_iff₀ hlt]; linarith
+  · rw [div_le_one hlt]; linarith
+
+/-- **MFM ∈ [-1, 1]** : ((close − low) − (high − close)) / (high − low) -/
+theorem mfm_range (V : Valid o h l c v) (i : Nat) (hd : h i ≠ l i) :
+    -1 ≤ (mfm (input h) (input l) (input c)).val i ∧ (mfm (input h) (input l) (input c)).val i ≤ 1 := by
+  simp only [mfm, div_val, sub_val, input_val, div_eq, sub_eq]
+  have hlt : 0 < h i - l i := by have := V.low_high i; rcases lt_or_eq_of_le this with x | x; linarith; exact absurd x.symm hd
+  have a3 := V.low_close i; have a4 := V.close_high i
+  constructor
+  · rw [le_div_iff₀ hlt]; linarith
+  · rw [div_le_one hlt]; linarith
+
+/-- |MFM| ≤ 1 at every position (where high = low the real quotient is 0) -/
+theorem mfm_abs_le (V : Valid o h l c v) (i : Nat) : |(mfm (input h) (input l) (input c)).val i| ≤ 1 := by
+  by_cases hd : h i = l i
+  · simp [mfm, hd]
+  · exact abs_le.mpr (mfm_range V i hd)
+
+/-- **CMF ∈ [-1, 1]** : Σ MFV / Σ volume over the period, when the period's volume is not zero -/
+theorem cmf_range (V : Valid o h l c v) (p i : Nat)
+    (hv : sumL (window p v i) ≠ 0) :
+    -1 ≤ (msum p (mfv (input h) (input l) (input c) (input v)) / msum p (input v)).val i ∧
+    (msum p (mfv (input h) (input l) (input c) (input v)) / msum p (input v)).val i ≤ 1 := by
+  simp only [div_val, msum_val, div_eq]
+  have hvs : 0 ≤ sumL (window p (input v).val i) := sumL_nonneg _ (by
+    intro x hx; obtain ⟨j, _, rfl⟩ := mem_window hx; exact V.vol_nonneg _)
+  have hpos : 0 < sumL (window p (input v).val i) := lt_of_le_of_ne hvs (Ne.symm hv)
+  have up : sumL (window p (mfv (input h) (input l) (input c) (input v)).val i) ≤ sumL (window p (input v).val i) := by
+    apply sumL_le_sumL
+    intro j _
+    have := (abs_le.mp (mfm_abs_le V (i + 1 - p + j))).2
+    have hv0 := V.vol_nonneg (i + 1 - p + j)
+    simp only [mfv, mul_val, input_val, mul_eq]
+    calc _ ≤ 1 * v (i + 1 - p + j) := mul_le_mul_of_nonneg_right this hv0
+      _ = _ := one_mul _
+  have lo : sumL (window p (fun k => -(input v).val k) i) ≤ sumL (window p (mfv (input h) (input l) (input c) (input v)).val i) := by
+    apply sumL_le_sumL
+    intro j _
+    have := (abs_le.mp (mfm_abs_le V (i + 1 - p + j))).1
+    have hv0 := V.vol_nonneg (i + 1 - p + j)
+    simp only [mfv, mul_val, input_val, mul_eq]
+    nlinarith
+  have neg : sumL (window p (fun k => -(input v).val k) i) = -sumL (window p (input v).val i) := by
+    rw [Sig.sumL_eq_sum, Sig.sumL_eq_sum]; simp only [window]
+    induction (List.range p) with
+    | nil => simp
+    | cons a t ih => simp only [List.map_cons, List.sum_cons, ih]; ring
+  rw [neg] at lo
+  constructor
+  · rw [le_div_iff₀ hpos]; linarith
+  · rw [div_le_one hpos]; exact up
+
+/-! ### moving extrema -/
+
+/-- **moving min ≤ value ≤ moving max** -/
+theorem moving_min_le_value_le_max (x : Nat → ℝ) (p i : Nat) (hp : 1 ≤ p) (hi : p - 1 ≤ i) :
+    (mmin p (input x)).val i ≤ x i ∧ x i ≤ (mmax p (input x)).val i := by
+  simp only [mmin_val, mmax_val, input_val]
+  exact ⟨minL_le _ _ (cur_mem_window p hp x i hi), le_maxL _ _ (cur_mem_window p hp x i hi)⟩
+
+/-- window of lows ≤ close ≤ window of highs -/
+theorem close_between (V : Valid o h l c v) (p i : Nat) (hp : 1 ≤ p) (hi : p - 1 ≤ i) :
+    minL (window p l i) ≤ c i ∧ c i ≤ maxL (window p h i) :=
+  ⟨le_trans (minL_le _ _ (cur_mem_window p hp l i hi)) (V.low_close i),
+   le_trans (V.close_high i) (le_maxL _ _ (cur_mem_window p hp h i hi))⟩
+
+/-- **Stochastic %K ∈ [0, 100]** -/
+theorem stochastic_k_range (V : Valid o h l c v) (p i : Nat) (hp : 1 ≤ p) (hi : p - 1 ≤ i)
+    (hd : minL (window p l i) < maxL (window p h i)) :
+    0 ≤ (scale hundred ((input c - mmin p (input l)) / (mmax p (input h) - mmin p (input l)))).val i ∧
+    (scale hundred ((input c - mmin p (input l)) / (mmax p (input h) - mmin p (input l)))).val i ≤ 100 := by
+  simp only [scale_val, div_val, sub_val, input_val, input_fun, mmin_val, mmax_val, div_eq, sub_eq, mul_eq, hundred, arith_nat]
+  obtain ⟨h1, h2⟩ := close_between V p i hp hi
+  obtain ⟨r1, r2⟩ := ratio_in_unit h1 h2 hd
+  push_cast
+  constructor <;> nlinarith
+
+/-- %D (an average of %K values in [0,100]) stays in [0,100] -/
+theorem sma_range (a : PS ℝ) (p i : Nat) (hp : 1 ≤ p) (lo hi : ℝ)
+    (hb : ∀ j, j < p → lo ≤ a.val (i + 1 - p + j) ∧ a.val (i + 1 - p + j) ≤ hi) :
+    lo ≤ (sma p a).val i ∧ (sma p a).val i ≤ hi := by
+  rw [sma_val]
+  have hp0 : (0 : ℝ) < p := by exact_mod_cast hp
+  have c1 : sumL (window p (fun _ => lo) i) ≤ sumL (window p a.val i) := sumL_le_sumL p _ _ i (fun j hj => (hb j hj).1)
+  have c2 : sumL (window p a.val i) ≤ sumL (window p (fun _ => hi) i) := sumL_le_sumL p _ _ i (fun j hj => (hb j hj).2)
+  have cst : ∀ k : ℝ, sumL (window p (fun _ => k) i) = p * k := by
+    intro k; rw [Sig.sumL_eq_sum]; simp [window]
+  rw [cst] at c1 c2
+  constructor
+  · rw [le_div_iff₀ hp0]; linarith
+  · rw [div_le_iff₀ hp0]; linarith
+
+/-- **Williams %R ∈ [-100, 0]** -/
+theorem williams_r_range (V : Valid o h l c v) (p i : Nat) (hp : 1 ≤ p) (hi : p - 1 ≤ i)
+    (hd : minL (window p l i) < maxL (window p h i)) :
+    -100 ≤ (scale (Arith.neg hundred) ((mmax p (input h) - input c) / (mmax p (input h) - mmin p (input l)))).val i ∧
+    (scale (Arith.neg hundred) ((mmax p (input h) - input c) / (mmax p (input h) - mmin p (input l)))).val i ≤ 0 := by
+  simp only [scale_val, div_val, sub_val, input_val, input_fun, mmin_val, mmax_val, div_eq, sub_eq, mul_eq, hundred, arith_nat, arith_neg]
+  obtain ⟨h1, h2⟩ := close_between V p i hp hi
+  have hdd : 0 < maxL (window p h i) - minL (window p l i) := by linarith
+  have r1 : 0 ≤ (maxL (window p h i) - c i) / (maxL (window p h i) - minL (window p l i)) := div_nonneg (by linarith) hdd.le
+  have r2 : (maxL (window p h i) - c i) / (maxL (window p h i) - minL (window p l i)) ≤ 1 := by rw [div_le_one hdd]; linarith
+  push_cast
+  constructor <;> nlinarith
+
+/-- **Stochastic RSI ∈ [0, 1]** (for any underlying series `r`) -/
+theorem stochastic_rsi_range (r : PS ℝ) (p i : Nat) (hp : 1 ≤ p) (hi : p - 1 ≤ i)
+    (hd : (mmin p r).val i < (mmax p r).val i) :
+    0 ≤ ((r - mmin p r) / (mmax p r - mmin p r)).val i ∧ ((r - mmin p r) / (mmax p r - mmin p r)).val i ≤ 1 := by
+  simp only [div_val, sub_val, div_eq, sub_eq]
+  simp only [mmin_val, mmax_val] at hd ⊢
+  exact ratio_in_unit (minL_le _ _ (cur_mem_window p hp r.val i hi)) (le_maxL _ _ (cur_mem_window p hp r.val i hi)) hd
+
+/-! ### 100 − 100/(1 + ratio) -/
+
+theorem hundred_minus (q : ℝ) (hq : 0 ≤ q) : 0 ≤ 100 - 100 / (1 + q) ∧ 100 - 100 / (1 + q) ≤ 100 := by
+  have h1 : 0 < 1 + q := by linarith
+  have h2 : 100 / (1 + q) ≤ 100 := by rw [div_le_iff₀ h1]; nlinarith
+  have h3 : 0 ≤ 100 / (1 + q) := by positivity
+  constructor <;> linarith
+
+/-- the recurrence of RMA keeps non-negative inputs non-negative -/
+theorem recG_rma_nonneg (p : Nat) (f0 : ℝ) (a : Nat → ℝ) (h0 : 0 ≤ f0) (ha : ∀ k, 0 ≤ a k) (k : Nat) :
+    0 ≤ recG f0 (fun prev k => ((prev * ((p - 1 : Nat) : ℝ)) + a k) / (p : ℝ)) k := by
+  induction k with
+  | zero => exact h0
+  | succ k ih =>
+    simp only [recG]
+    apply div_nonneg
+    · have : (0 : ℝ) ≤ ((p - 1 : Nat) : ℝ) := by positivity
+      have := mul_nonneg ih this
+      have := ha k
+      linarith
+    · positivity
+
+theorem rma_nonneg (N p : Nat) (a : PS ℝ) (ha : ∀ k, 0 ≤ a.val k) (i : Nat) : 0 ≤ (rma N p a).val i := by
+  simp only [rma, recAvg, tabVal_eq]
+  have := recG_rma_nonneg p (sumL (window p a.val (a.start + (p - 1))) / (p : ℝ)) (fun k => a.val (a.start + (p - 1) + k + 1))
+    (div_nonneg (sumL_nonneg _ (by intro x hx; obtain ⟨j, _, rfl⟩ := mem_window hx; exact ha _)) (by positivity))
+    (fun k => ha _) (i - (a.start + (p - 1)))
+  simpa [arith_nat, add_eq, mul_eq, div_eq] using this
+
+/-- **RSI ∈ [0, 100]** wherever the average loss is not zero -/
+theorem rsi_range (N p : Nat) (x : Nat → ℝ) (i : Nat)
+    (_hl : (rma N p (map (fun v => if Arith.lt v zero then Arith.neg v else zero) (input x - prev 1 (input x)))).val i ≠ 0) :
+    0 ≤ (rsi N p (input x)).val i ∧ (rsi N p (input x)).val i ≤ 100 := by
+  simp only [rsi, map_val, div_val, div_eq, sub_eq, add_eq, hundred, one, arith_nat]
+  push_cast
+  refine hundred_minus _ (div_nonneg ?_ ?_)
+  · apply rma_nonneg; intro k; simp only [map_val]; split
+    · rename_i hgt
+      have := (arith_gt _ _).mp hgt
+      exact this.le
+    · simp [zero, arith_nat]
+  · apply rma_nonneg; intro k; simp only [map_val]; split
+    · rename_i hlt
+      have := (arith_lt _ _).mp hlt
+      simp only [arith_neg]; linarith
+    · simp [zero, arith_nat]
+
+/-- **MFI ∈ [0, 100]** wherever the negative money flow of the period is not zero -/
+theorem mfi_range (V : Valid o h l c v) (p i : Nat) :
+    let raw := typicalPrice (input h) (input l) (input c) * input v
+    let ch := raw - prev 1 raw
+    let pos := msum p (map2 (fun d r => if Arith.gt d zero then r else zero) ch raw)
+    let neg := msum p (map2 (fun d r => if Arith.lt d zero then r else zero) ch raw)
+    neg.val i ≠ 0 →
+    0 ≤ (map (fun mr => hundred - hundred / (one + mr)) (pos / neg)).val i ∧
+    (map (fun mr => hundred - hundred / (one + mr)) (pos / neg)).val i ≤ 100 := by
+  intro raw ch pos neg hn
+  have raw0 : ∀ k, 0 ≤ raw.val k := by
+    intro k
+    simp only [raw, typicalPrice, mul_val, over_val, add_val, input_val, mul_eq, div_eq, add_eq, arith_nat]
+    have := V.high_pos k; have := V.low_pos k; have := V.close_pos k; have := V.vol_nonneg k
+    positivity
+  have pos0 : 0 ≤ pos.val i := by
+    simp only [pos, msum_val]
+    apply sumL_nonneg; intro y hy; obtain ⟨j, _, rfl⟩ := mem_window hy
+    simp only [map2_val]; split
+    · exact raw0 _
+    · simp [zero, arith_nat]
+  have neg0 : 0 ≤ neg.val i := by
+    simp only [neg, msum_val]
+    apply sumL_nonneg; intro y hy; obtain ⟨j, _, rfl⟩ := mem_window hy
+    simp only [map2_val]; split
+    · exact raw0 _
+    · simp [zero, arith_nat]
+  have npos : 0 < neg.val i := lt_of_le_of_ne neg0 (Ne.symm hn)
+  simp only [map_val, div_val, div_eq, sub_eq, add_eq, hundred, one, arith_nat]
+  have := hundred_minus (pos.val i / neg.val i) (div_nonneg pos0 npos.le)
+  push_cast
+  exact this
+
+/-! ### bands -/
+
+/-- **Standard deviation ≥ 0** -/
+theorem mstd_nonneg (p : Nat) (a : PS ℝ) (i : Nat) : 0 ≤ (mstd p a).val i := by
+  simp only [mstd, arith_sqrt]; exact Real.sqrt_nonneg _
+
+/-- **Bollinger: upper ≥ middle ≥ lower** -/
+theorem bollinger_ordered (p : Nat) (x : Nat → ℝ) (i : Nat) :
+    (bbLower p (input x)).val i ≤ (bbMiddle p (input x)).val i ∧ (bbMiddle p (input x)).val i ≤ (bbUpper p (input x)).val i := by
+  have := mstd_nonneg p (input x) i
+  simp only [bbLower, bbMiddle, bbUpper, sub_val, add_val, scale_val, sub_eq, add_eq, mul_eq, two, arith_nat]
+  push_cast
+  constructor <;> nlinarith
+
+/-- **Bollinger band width ≥ 0** where the middle band is positive -/
+theorem band_width_nonneg (p : Nat) (x : Nat → ℝ) (i : Nat) (hm : 0 < (bbMiddle p (input x)).val i) :
+    0 ≤ ((bbUpper p (input x) - bbLower p (input x)) / bbMiddle p (input x)).val i := by
+  obtain ⟨h1, h2⟩ := bollinger_ordered p x i
+  simp only [div_val, sub_val, div_eq, sub_eq]
+  exact div_nonneg (by linarith) hm.le
+
+/-- **Donchian: upper ≥ middle ≥ lower** -/
+theorem donchian_ordered (p : Nat) (hp : 1 ≤ p) (x : Nat → ℝ) (i : Nat) :
+    (mmin p (input x)).val i ≤ (over two (mmax p (input x) + mmin p (input x))).val i ∧
+    (over two (mmax p (input x) + mmin p (input x))).val i ≤ (mmax p (input x)).val i := by
+  have := minL_le_maxL (window p x i) (window_ne_nil p hp x i)
+  simp only [over_val, add_val, mmin_val, mmax_val, input_fun, div_eq, add_eq, two, arith_nat]
+  push_cast
+  constructor <;> linarith
+
+/-- **Envelope: upper ≥ middle ≥ lower** for a non-negative moving average and percentage -/
+theorem envelope_ordered (m : PS ℝ) (pct : ℝ) (i : Nat) (hm : 0 ≤ m.val i) (hp : 0 ≤ pct) :
+    (scale (one - pct / hundred) m).val i ≤ m.val i ∧ m.val i ≤ (scale (one + pct / hundred) m).val i := by
+  simp only [scale_val, mul_eq, sub_eq, add_eq, div_eq, one, hundred, arith_nat]
+  have : 0 ≤ pct / 100 := by positivity
+  push_cast
+  constructor <;> nlinarith
+
+/-- the simple moving average of positive prices is positive (so the Envelope hypothesis holds for SMA) -/
+theorem sma_pos (p : Nat) (hp : 1 ≤ p) (x : Nat → ℝ) (hx : ∀ k, 0 < x k) (i : Nat) : 0 < (sma p (input x)).val i := by
+  rw [sma_val]
+  have hp0 : (0 : ℝ) < p := by exact_mod_cast hp
+  apply div_pos _ hp0
+  rw [Sig.sumL_eq_sum]
+  apply List.sum_pos
+  · intro y hy; obtain ⟨j, _, rfl⟩ := mem_window hy; exact hx _
+  · exact window_ne_nil p hp _ i
+
+/-- true range ≥ high − low ≥ 0 -/
+theorem true_range_nonneg (V : Valid o h l c v) (i : Nat) : 0 ≤ (trueRange (input h) (input l) (input c)).val i := by
+  simp only [trueRange, map3, input_val, prev, arith_max, sub_eq]
+  exact le_trans (sub_nonneg.mpr (V.low_high i)) (le_max_left _ _)
+
+/-- **ATR ≥ 0** (simple moving average of the true range) -/
+theorem atr_sma_nonneg (V : Valid o h l c v) (N p : Nat) (i : Nat) : 0 ≤ (atr N (.sma p) (input h) (input l) (input c)).val i := by
+  simp only [atr, ma]
+  rw [sma_val]
+  apply div_nonneg _ (by positivity)
+  apply sumL_nonneg; intro y hy; obtain ⟨j, _, rfl⟩ := mem_window hy; exact true_range_nonneg V _
+
+/-- **Keltner: upper ≥ middle ≥ lower** -/
+theorem keltner_ordered (V : Valid o h l c v) (N p : Nat) (i : Nat) :
+    let a := scale two (atr N (.sma p) (input h) (input l) (input c))
+    let m := ema N p two (input c)
+    (m - a).val i ≤ m.val i ∧ m.val i ≤ (m + a).val i := by
+  intro a m
+  have := atr_sma_nonneg V N p i
+  simp only [a, sub_val, add_val, scale_val, sub_eq, add_eq, mul_eq, two, arith_nat]
+  push_cast
+  constructor <;> nlinarith
+
+/-- **Acceleration bands: upper ≥ middle ≥ lower** -/
+theorem acceleration_ordered (V : Valid o h l c v) (p i : Nat) (hp : 1 ≤ p) :
+    let k := (input h - input l) / (input h + input l)
+    (sma p (input l * map (fun v => one - Arith.nat 4 * v) k)).val i ≤ (sma p (input c)).val i ∧
+    (sma p (input c)).val i ≤ (sma p (input h * plus one (scale (Arith.nat 4) k))).val i := by
+  intro k
+  have hp0 : (0 : ℝ) < p := by exact_mod_cast hp
+  have kk : ∀ j, 0 ≤ k.val j := by
+    intro j
+    simp only [k, div_val, sub_val, add_val, input_val, div_eq, sub_eq, add_eq]
+    have := V.low_high j; have := V.high_pos j; have := V.low_pos j
+    exact div_nonneg (by linarith) (by linarith)
+  simp only [sma_val]
+  constructor
+  · apply div_le_div_of_nonneg_right _ hp0.le
+    apply sumL_le_sumL; intro j _
+    simp only [mul_val, map_val, input_val, mul_eq, sub_eq, one, arith_nat]
+    have := kk (i + 1 - p + j); have := V.low_pos (i + 1 - p + j); have := V.low_close (i + 1 - p + j)
+    push_cast; nlinarith
+  · apply div_le_div_of_nonneg_right _ hp0.le
+    apply sumL_le_sumL; intro j _
+    simp only [mul_val, plus_val, scale_val, input_val, mul_eq, add_eq, one, arith_nat]
+    have := kk (i + 1 - p + j); have := V.high_pos (i + 1 - p + j); have := V.close_high (i + 1 - p + j)
+    push_cast; nlinarith
+
+/-- **Ulcer index ≥ 0** -/
+theorem ulcer_nonneg (p : Nat) (x : Nat → ℝ) (i : Nat) :
+    let hc := mmax p (input x)
+    let pd := scale hundred ((input x - hc) / hc)
+    0 ≤ (map Arith.sqrt (sma p (pd * pd))).val i := by
+  intro hc pd; simp only [map_val, arith_sqrt]; exact Real.sqrt_nonneg _
+
+/-! ### Aroon -/
+
+/-- **Aroon ∈ [0, 100]** -/
+theorem aroon_range (p : Nat) (hp : 1 ≤ p) (pick : List ℝ → ℝ) (x : Nat → ℝ) (i : Nat) :
+    0 ≤ (aroonLine p pick (input x)).val i ∧ (aroonLine p pick (input x)).val i ≤ 100 := by
+  simp only [aroonLine, scale_val, over_val, map_val, sinceExtreme, input_fun, mul_eq, div_eq, sub_eq, hundred, arith_nat]
+  have hp0 : (0 : ℝ) < p := by exact_mod_cast hp
+  set idx := ((List.range p).find? (fun d => Arith.beq (x (i - d)) (pick (window p x i)))).getD 0 with hidx
+  have hlt : idx ≤ p := by
+    rw [hidx]
+    cases hf : (List.range p).find? (fun d => Arith.beq (x (i - d)) (pick (window p x i))) with
+    | none => simp
+    | some d => have := List.mem_range.mp (List.mem_of_find?_eq_some hf); simp; omega
+  have hr : (idx : ℝ) ≤ p := by exact_mod_cast hlt
+  have h0 : (0 : ℝ) ≤ idx := by positivity
+  have q1 : 0 ≤ ((p : ℝ) - idx) / p := div_nonneg (by linarith) hp0.le
+  have q2 : ((p : ℝ) - idx) / p ≤ 1 := by rw [div_le_one hp0]; linarith
+  push_cast
+  constructor <;> nlinarith
+
+/-! non-vacuity: a valid series exists -/
+example : Valid (fun _ => 2) (fun _ => 3) (fun _ => 1) (fun _ => 2) (fun _ => 5) :=
+  ⟨by intro; norm_num, by intro; norm_num, by intro; norm_num, by intro; norm_num, by intro; norm_num, by intro; norm_num⟩
+
 end C15
